@@ -155,7 +155,9 @@ struct Shadow {
   uintptr_t wpc;
   uint32_t wclk;
   int8_t wtid;
-  uint8_t rmask;
+  uint8_t rmask;  // threads with a recorded read
+  uint8_t wbytes; // bytes of the granule covered by the last write
+  uint8_t rbytes[VF_MAXT];
   uint32_t rclk[VF_MAXT];
   uintptr_t rpc[VF_MAXT];
 };
@@ -178,6 +180,7 @@ static struct G {
   uint64_t memfp;
   uint64_t outcome;
   int stall_rounds;
+  uint64_t slice_start; // g.nops at the last context switch
   uint32_t loopmask; // threads with looping||ydis
   int failed;        // vf_note_fail recorded
   // ledger
@@ -203,6 +206,7 @@ static Shadow* g_shadow;  // SHADOW_SLOTS
 static __thread Thr* tls_me;
 
 #define STALL_LIMIT 40
+#define SLICE 4000
 
 // ---------------------------------------------------------------------------
 // real libc entry points
@@ -406,6 +410,23 @@ static inline void note_own_change(Thr* me) {
   g.stall_rounds = 0;
 }
 
+// remember the value a location had before this thread's FIRST write to it
+// since the last reset (net effect of a period = compare with current memory)
+static void wlog_first(Thr* me, uintptr_t addr, int size, uint64_t old) {
+  for (int i = 0; i < me->nwlog; ++i)
+    if (me->wlog[i].addr == addr)
+      return;
+  if (me->nwlog >= WLOG_CAP) {
+    loop_reset(me);
+    g.stall_rounds = 0;
+    return;
+  }
+  WlogEnt* e = &me->wlog[me->nwlog++];
+  e->addr    = addr;
+  e->size    = size > 8 ? 8 : size;
+  e->old     = old;
+}
+
 static bool wlog_changed(Thr* me) {
   for (int i = 0; i < me->nwlog; ++i) {
     WlogEnt* e  = &me->wlog[i];
@@ -543,6 +564,11 @@ static int decide(Thr* me) {
         loop_reset(&g.thr[i]);
   }
   int base;
+  // fairness backstop: a thread that ran SLICE visible operations in a row
+  // while others could run is treated as yielding (busy-wait loops that
+  // neither pause nor look periodic would otherwise starve everybody)
+  if (g.nops - g.slice_start > SLICE && (mask & ~(1u << me->tid)))
+    me->yielding = true;
   if (((mask >> me->tid) & 1) && !me->yielding) {
     base = me->tid;
   } else {
@@ -626,6 +652,7 @@ static void sched_point(Thr* me, int kind, uintptr_t addr, int aux,
     me->state = TS_PARKED;
     g.cur     = n;
     g.nswitches++;
+    g.slice_start = g.nops;
     Thr* t   = &g.thr[n];
     t->state = TS_RUNNING;
     wake(t);
@@ -702,9 +729,12 @@ static void report_race(Thr* me, uintptr_t addr, uintptr_t pc_prev, bool wprev,
   r->nraces++;
 }
 
-static inline void shadow_access(Thr* me, uintptr_t addr, bool is_write,
-                                 uintptr_t pc) {
+static inline void shadow_access(Thr* me, uintptr_t addr, int size,
+                                 bool is_write, uintptr_t pc) {
   uintptr_t key = addr >> 3;
+  unsigned off  = addr & 7;
+  unsigned nb   = size > 8 - (int)off ? 8 - off : size;
+  uint8_t bytes = (uint8_t)(((1u << nb) - 1) << off);
   uint64_t h    = mix(key, 0xabc);
   Shadow* s     = NULL;
   for (unsigned i = 0; i < 64; ++i) {
@@ -723,21 +753,30 @@ static inline void shadow_access(Thr* me, uintptr_t addr, bool is_write,
   if (!s)
     return; // table crowded: give up tracking this location
   int t = me->tid;
-  if (s->wtid >= 0 && s->wtid != t && s->wclk > me->vc[s->wtid])
+  if (s->wtid >= 0 && s->wtid != t && (s->wbytes & bytes) &&
+      s->wclk > me->vc[s->wtid])
     report_race(me, addr, s->wpc, true, pc, is_write);
   if (is_write) {
     uint8_t m = s->rmask & ~(1u << t);
     while (m) {
       int u = __builtin_ctz(m);
       m &= m - 1;
-      if (s->rclk[u] > me->vc[u])
+      if ((s->rbytes[u] & bytes) && s->rclk[u] > me->vc[u])
         report_race(me, addr, s->rpc[u], false, pc, true);
     }
+    if (s->wtid == t && s->wclk == me->vc[t])
+      s->wbytes |= bytes;
+    else
+      s->wbytes = bytes;
     s->wtid  = (int8_t)t;
     s->wclk  = me->vc[t];
     s->wpc   = pc;
     s->rmask = 0;
   } else {
+    if ((s->rmask >> t) & 1 && s->rclk[t] == me->vc[t])
+      s->rbytes[t] |= bytes;
+    else
+      s->rbytes[t] = bytes;
     s->rclk[t] = me->vc[t];
     s->rpc[t]  = pc;
     s->rmask |= 1u << t;
@@ -773,16 +812,9 @@ static inline void plain_access(uintptr_t addr, int size, bool is_write,
   }
   if (is_write) {
     if (me->looping) {
-      if (me->nwlog >= WLOG_CAP) {
-        loop_reset(me);
-        g.stall_rounds = 0;
-      } else {
-        WlogEnt* e = &me->wlog[me->nwlog++];
-        e->addr    = addr;
-        e->size    = size > 8 ? 8 : size;
-        e->old     = 0;
-        memcpy(&e->old, (void*)addr, e->size);
-      }
+      uint64_t old = 0;
+      memcpy(&old, (void*)addr, size > 8 ? 8 : size);
+      wlog_first(me, addr, size, old);
     }
     if (g.loopmask & ~(1u << me->tid))
       note_write_others(me, addr, size);
@@ -795,9 +827,11 @@ static inline void plain_access(uintptr_t addr, int size, bool is_write,
     me->pdig = mix(me->pdig ^ pc, addr ^ (v * 0x9e3779b97f4a7c15ULL));
   }
   if (g.window && g.job->track_races) {
-    shadow_access(me, addr, is_write, pc);
-    if ((addr & 7) + size > 8)
-      shadow_access(me, addr + size - 1, is_write, pc);
+    shadow_access(me, addr, size, is_write, pc);
+    if ((addr & 7) + size > 8) {
+      uintptr_t a2 = (addr | 7) + 1;
+      shadow_access(me, a2, (int)(addr + size - a2), is_write, pc);
+    }
   }
 }
 
@@ -899,10 +933,21 @@ static inline void after_read(Thr* me, int kind, uintptr_t addr, uint64_t val,
   }
 }
 static inline void after_write(Thr* me, int kind, uintptr_t addr, uint64_t val,
-                               int size, uintptr_t pc) {
+                               uint64_t old, int size, uintptr_t pc,
+                               uintptr_t sp) {
   record(me, kind, addr, val, true, pc);
-  note_own_change(me);
   note_write_others(me, addr, size);
+  // An atomic write is part of the thread's event sequence.  Whether the
+  // thread "changed something" is decided by the NET effect of a period
+  // (lock; fail; unlock; retry restores memory): see loop_check.
+  wlog_first(me, addr, size, old);
+  bool waiting =
+      loop_check(me, pc ^ ((uintptr_t)(kind + 64) << 56), sp, addr, val);
+  if (waiting) {
+    me->ydis = true;
+    g.loopmask |= 1u << me->tid;
+    sched_point(me, OP_YIELD, addr, 0, pc);
+  }
 }
 
 #define DEF_ATOMICS(T, N, SZ)                                                  \
@@ -923,13 +968,14 @@ static inline void after_write(Thr* me, int kind, uintptr_t addr, uint64_t val,
       __atomic_store_n(a, v, __ATOMIC_SEQ_CST);                                \
       return;                                                                  \
     }                                                                          \
-    uintptr_t pc = PC();                                                       \
+    uintptr_t pc = PC(), sp = SP();                                            \
     sched_point(me, OP_ASTORE, (uintptr_t)a, mo, pc);                          \
     T old = __atomic_load_n(a, __ATOMIC_SEQ_CST);                              \
     __atomic_store_n(a, v, __ATOMIC_SEQ_CST);                                  \
     hb_store(me, sync_get((uintptr_t)a), mo);                                  \
     if (old != v)                                                              \
-      after_write(me, OP_ASTORE, (uintptr_t)a, (uint64_t)v, SZ, pc);           \
+      after_write(me, OP_ASTORE, (uintptr_t)a, (uint64_t)v, (uint64_t)old, SZ, \
+                  pc, sp);                                                     \
     else                                                                       \
       record(me, OP_ASTORE, (uintptr_t)a, (uint64_t)v, true, pc);              \
   }                                                                            \
@@ -954,7 +1000,8 @@ static inline void after_write(Thr* me, int kind, uintptr_t addr, uint64_t val,
       hb_load(me, o, mo);                                                      \
       hb_rmw_release(me, o, mo);                                               \
       if (nv != old)                                                           \
-        after_write(me, OP_ARMW, (uintptr_t)a, (uint64_t)nv, SZ, pc);          \
+        after_write(me, OP_ARMW, (uintptr_t)a, (uint64_t)nv, (uint64_t)old,    \
+                    SZ, pc, sp);                                               \
       else                                                                     \
         after_read(me, OP_ARMW, (uintptr_t)a, (uint64_t)old, pc, sp);          \
     }                                                                          \
@@ -995,7 +1042,8 @@ static inline void after_write(Thr* me, int kind, uintptr_t addr, uint64_t val,
         hb_load(me, o, mo);                                                    \
         hb_rmw_release(me, o, mo);                                             \
         if (v != old)                                                          \
-          after_write(me, OP_ACAS, (uintptr_t)a, (uint64_t)v, SZ, pc);         \
+          after_write(me, OP_ACAS, (uintptr_t)a, (uint64_t)v, (uint64_t)old,   \
+                      SZ, pc, sp);                                             \
         else                                                                   \
           after_read(me, OP_ACAS, (uintptr_t)a, (uint64_t)old, pc, sp);        \
       } else {                                                                 \
@@ -1040,9 +1088,15 @@ static inline void after_write(Thr* me, int kind, uintptr_t addr, uint64_t val,
       return;                                                                  \
     uintptr_t pc = PC();                                                       \
     sched_point(me, OP_VWRITE, (uintptr_t)p, 0, pc);                           \
-    /* value is stored after we return; treat every volatile write as a */     \
-    /* change */                                                               \
-    after_write(me, OP_VWRITE, (uintptr_t)p, 0, SZ, pc);                       \
+    /* the value is stored after we return: log the old value like a plain */  \
+    /* write; the net effect is judged at the next event */                    \
+    record(me, OP_VWRITE, (uintptr_t)p, 0, true, pc);                          \
+    note_write_others(me, (uintptr_t)p, SZ);                                   \
+    {                                                                          \
+      uint64_t oldv = 0;                                                       \
+      memcpy(&oldv, p, SZ);                                                    \
+      wlog_first(me, (uintptr_t)p, SZ, oldv);                                  \
+    }                                                                          \
   }                                                                            \
   extern "C" void __tsan_unaligned_volatile_read##SZ(void* p) {                \
     __tsan_volatile_read##SZ(p);                                               \
